@@ -261,4 +261,7 @@ pub fn run(rc: &mut RunCtx) {
         rc.require_label("header", l, 20_000);
     }
     rc.require_label("stream", "stream_declares_more_than_limit", 100_000);
+    if !rc.quick() {
+        rc.run_fuzz(Some(STAGES[1]), 300);
+    }
 }
